@@ -80,6 +80,128 @@ fn scan_repo() -> Vec<String> {
     hits
 }
 
+/// Migration leg (real OS threads, strictly alternating, hence deterministic): an evaluation is
+/// polled on thread A up to its k-th suspension, handed to thread B and finished there, N times
+/// in a row, for every suspension point k; then thread A evaluates afresh.  Everything must equal
+/// the sequential run.  This is where per-thread state inside reval (which loom cannot see: model
+/// threads share one OS thread) would show.
+fn migration_leg(acc: &mut Acc, rounds: usize) {
+    use super::probe::*;
+    use crate::engine::exec::{poll_once, WakeCount};
+    use crate::spec::eval::{observe, Obs};
+    use reval::prelude::*;
+    use std::collections::BTreeMap;
+    use std::future::Future;
+    use std::pin::Pin;
+    use std::sync::{mpsc, Arc};
+    use std::task::Poll;
+    type Outs = Vec<(String, Obs)>;
+    type Fut = Pin<Box<dyn Future<Output = Outs> + Send + 'static>>;
+    let mut deep = String::from("c(id)");
+    for _ in 0..100 {
+        deep = format!("[{deep}]");
+    }
+    let texts = vec![deep, "c(other)".to_string(), "[n(id), c(id)]".to_string()];
+    let suspend = Arc::new(std::sync::atomic::AtomicBool::new(false));
+    let s2 = suspend.clone();
+    let h: Handler = Arc::new(move |name, p| {
+        let n = if s2.load(std::sync::atomic::Ordering::SeqCst) { 1 } else { 0 };
+        (Ok(Value::Vec(vec![Value::String(name.to_string()), p])), n)
+    });
+    let mut b = ruleset();
+    for (i, t) in texts.iter().enumerate() {
+        b = b.with_rule(Rule::new(format!("r{i}"), BTreeMap::new(), Expr::parse(t).unwrap())).unwrap();
+    }
+    let rs = Arc::new(b.with_function(probe("c", true, &h)).unwrap().with_function(probe("n", false, &h)).unwrap().build());
+    let facts = Value::Map([("id".to_string(), Value::Int(1)), ("other".to_string(), Value::Int(2))].into_iter().collect());
+    let mk = |rs: &Arc<RuleSet>, facts: &Value| -> Fut {
+        let (rs, facts) = (rs.clone(), facts.clone());
+        Box::pin(async move {
+            match rs.evaluate_value(&facts).await {
+                Ok(v) => v.into_iter().map(|o| (o.rule.name().to_string(), observe(Ok(o.value)))).collect(),
+                Err(e) => vec![("whole-call".to_string(), Obs::Panic(e.to_string()))],
+            }
+        })
+    };
+    let baseline = crate::engine::exec::block_on(mk(&rs, &facts)).unwrap_or_default();
+    suspend.store(true, std::sync::atomic::Ordering::SeqCst);
+    // thread B: finishes whatever it is handed
+    let (to_b, from_a) = mpsc::channel::<Fut>();
+    let (to_a, from_b) = mpsc::channel::<Outs>();
+    let worker = std::thread::spawn(move || {
+        while let Ok(f) = from_a.recv() {
+            let r = crate::engine::exec::block_on(f).unwrap_or_default();
+            if to_a.send(r).is_err() {
+                break;
+            }
+        }
+    });
+    let suspension_points = 4; // c(id) deep, c(other), n(id), c(id) cached -> 3 calls; one spare
+    for k in 1..=suspension_points {
+        for round in 0..rounds {
+            acc.count("executions", 1);
+            acc.count("migrations", 1);
+            let wc = Arc::new(WakeCount::default());
+            let mut fut = mk(&rs, &facts);
+            let mut pend = 0;
+            let mut done: Option<Outs> = None;
+            loop {
+                match poll_once(fut.as_mut(), &wc) {
+                    Poll::Ready(o) => {
+                        done = Some(o);
+                        break;
+                    }
+                    Poll::Pending => {
+                        pend += 1;
+                        if pend >= k {
+                            break;
+                        }
+                    }
+                }
+            }
+            let got = match done {
+                Some(o) => o,
+                None => {
+                    if to_b.send(fut).is_err() {
+                        acc.machinery("worker thread gone");
+                        return;
+                    }
+                    match from_b.recv() {
+                        Ok(o) => o,
+                        Err(_) => {
+                            acc.violation(Violation { sig: "migration/worker-died".into(), what: "finishing a migrated evaluation killed the worker thread".into(), case: json!({"kind": "migration"}), size: 1 });
+                            return;
+                        }
+                    }
+                }
+            };
+            acc.outcome("migration:completed");
+            if got != baseline {
+                acc.violation(Violation {
+                    sig: "migration/outcome".into(),
+                    what: format!("evaluation polled {k} time(s) on one thread and finished on another (round {round}) returned {:?}, sequentially {:?}", got.iter().map(|x| x.1.show()).collect::<Vec<_>>(), baseline.iter().map(|x| x.1.show()).collect::<Vec<_>>()),
+                    case: json!({"kind": "migration", "suspension": k, "round": round}),
+                    size: round,
+                });
+                break;
+            }
+        }
+        // a fresh evaluation on the thread that started (and gave away) all those evaluations
+        let fresh = crate::engine::exec::block_on(mk(&rs, &facts)).unwrap_or_default();
+        acc.count("executions", 1);
+        if fresh != baseline {
+            acc.violation(Violation {
+                sig: "migration/fresh-after".into(),
+                what: format!("after {rounds} evaluations started here and finished on another thread (hand-off at suspension {k}), a fresh evaluation returns {:?}, sequentially {:?}", fresh.iter().map(|x| x.1.show()).collect::<Vec<_>>(), baseline.iter().map(|x| x.1.show()).collect::<Vec<_>>()),
+                case: json!({"kind": "migration", "suspension": k}),
+                size: k,
+            });
+        }
+    }
+    drop(to_b);
+    let _ = worker.join();
+}
+
 pub fn run(tier: Tier) -> i32 {
     let mut rep = Report::new("C18", tier);
     let mut acc = Acc::new();
@@ -162,6 +284,7 @@ pub fn run(tier: Tier) -> i32 {
     if schedules == 0 {
         acc.machinery("no loom schedule explored");
     }
+    migration_leg(&mut acc, tier.pick(20, 200));
     acc.sample("scenario", 1, || json!({"two": "2 threads, rules [c(id), n(id), c(id), c(other), bad(id)], inputs {id:1,other:2} / {id:2,other:1}, every user-function call suspends once", "handoff": "thread 0 polls an evaluation once, hands the future to thread 1 which finishes it while thread 0 runs another evaluation"}));
     let hits = scan_repo();
     rep.extra.insert("closed_world_scan".into(), json!(hits));
@@ -171,7 +294,7 @@ pub fn run(tier: Tier) -> i32 {
     rep.states = schedules;
     rep.transitions = sync_ops.max(schedules);
     rep.traces = schedules;
-    rep.rule = "loom (DPOR, preemption-bounded) over 2-3 model threads each running block_on(evaluate_value) on one Arc<RuleSet> with distinct inputs; user functions take a loom mutex, bump loom atomics and suspend once, which gives loom its scheduling points exactly where evaluations can meet; plus a hand-off scenario in which a suspended evaluation is finished on another thread; oracle: every evaluation's outcomes equal the sequential run and the invocation log is a permutation of the sequential logs; states = schedules explored, transitions = synchronisation operations executed".into();
+    rep.rule = "loom (DPOR, preemption-bounded) over 2-3 model threads each running block_on(evaluate_value) on one Arc<RuleSet> with distinct inputs; user functions take a loom mutex, bump loom atomics and suspend once, which gives loom its scheduling points exactly where evaluations can meet; plus a hand-off scenario in which a suspended evaluation is finished on another thread, and a migration leg on real OS threads (strictly alternating, deterministic: an evaluation is polled k times on thread A and finished on thread B, N times in a row for every suspension point k, then A evaluates afresh; this is where per-thread state inside reval would show, which loom cannot see because its model threads share one OS thread); oracle: every evaluation's outcomes equal the sequential run and the invocation log is a permutation of the sequential logs; states = schedules explored, transitions = synchronisation operations executed".into();
     rep.assume("type-level half (Send/Sync of the public types and evaluation futures) is decided by rustc when mc/c18gate is compiled, not by exploration");
     rep.assume("loom only sees loom types: reval has no synchronisation primitive of its own (closed_world_scan lists what a grep for such primitives finds in /repo/src); a std lock added to reval would be invisible to the scheduler");
     rep.finish()
